@@ -293,9 +293,19 @@ fn dump_bodies<'tcx>(tcx: TyCtxt<'tcx>, out: &mut String) {
             && !(matches!(kind, DefKind::AssocConst { .. })
                 && tcx.opt_parent(did).map_or(false, |p| matches!(tcx.def_kind(p), DefKind::Trait))
                 && !tcx.defaultness(did).has_value());
-        if !matches!(kind, DefKind::Fn | DefKind::AssocFn | DefKind::Closure) && !is_generic_const {
+        // initialisers of the other (evaluable) constants are dumped too, flagged `plain_const`: the analyser keeps them apart and
+        // uses them only to read a constant that the reviewed tree did not have as the expression that defines it
+        let is_plain_const = !is_generic_const
+            && matches!(kind, DefKind::AssocConst { .. } | DefKind::Const { .. })
+            && !tcx.generics_of(did).requires_monomorphization(tcx)
+            && !(matches!(kind, DefKind::AssocConst { .. })
+                && tcx.opt_parent(did).map_or(false, |p| matches!(tcx.def_kind(p), DefKind::Trait))
+                && !tcx.defaultness(did).has_value());
+        if !matches!(kind, DefKind::Fn | DefKind::AssocFn | DefKind::Closure) && !is_generic_const && !is_plain_const {
             continue;
         }
+        let plain_const = is_plain_const;
+        let is_generic_const = is_generic_const || is_plain_const;
         let body = if is_generic_const { tcx.mir_for_ctfe(did) } else { tcx.optimized_mir(did) };
         let cx = Cx { tcx, did };
         if !first_fn {
@@ -339,8 +349,9 @@ fn dump_bodies<'tcx>(tcx: TyCtxt<'tcx>, out: &mut String) {
         }
         let _ = write!(
             out,
-            "{{\"path\":{},\"kind\":{},\"exported\":{},\"reachable\":{},\"unsafe\":{},\"impl_trait\":{},\"impl_self\":{},\"in_trait\":{},\"derived\":{},\"span\":{},\"argc\":{},\"locals\":[",
+            "{{\"path\":{},\"plain_const\":{},\"kind\":{},\"exported\":{},\"reachable\":{},\"unsafe\":{},\"impl_trait\":{},\"impl_self\":{},\"in_trait\":{},\"derived\":{},\"span\":{},\"argc\":{},\"locals\":[",
             esc(&tcx.def_path_str(did)),
+            plain_const,
             esc(&format!("{:?}", kind)),
             exported,
             reachable,
